@@ -691,6 +691,13 @@ pub fn build(quick: bool) -> Check {
         families.push(Box::new(LargeRequests::new(&pow2_sizes(10..=23), 1)));
         families.push(Box::new(TwoLargeRequests::new(&[(MAXP + 10, MAXP + 10), (MAXP, MAXP), (70_000, 2 * MAXP + 3), (2 * MAXP + 3, MAXP + 1)])));
     }
+    // commands pipelined inside a TLS session: a TLS layer has buffers of its own on both sides
+    families.push(Box::new(super::c18::TlsWalks { depth: 3, lockstep: false }));
+    families.push(Box::new(super::c18::TlsWalks { depth: 3, lockstep: true }));
+    if !quick {
+        families.push(Box::new(super::c18::TlsWalks { depth: 4, lockstep: false }));
+        families.push(Box::new(super::c18::TlsWalks { depth: 4, lockstep: true }));
+    }
     {
         use super::registry::RunOpts;
         families.push(Box::new(super::soak::Soak {
@@ -704,12 +711,12 @@ pub fn build(quick: bool) -> Check {
     Check {
         id: "C12",
         level: "model_checking",
-        rule: "command lists over {query->OK, query->resultset, prepare, execute, long data, close, ping, init db, field list} (after a fixed PREPARE; lists of 3 (thorough: 4) also over nine more kinds: a 300-packet reply, chained resultsets, ERR at once and after rows, refused PREPARE / INIT_DB, USE, a SELECT @@ probe, close of an unknown id) x all batchings (lists of 3-4 (thorough: 5) commands fully pipelined also under every single cut, of 3 under every pair of cuts) (the client waits for all owed replies at any subset of message boundaries, from lock-step to fully pipelined; it never sends before the greeting) x cut sets of <= 2 positions; plus all 2^n compositions of small pipelined streams; plus a strict lock-step client receiving replies of every size 0..30000 (200000 in thorough) bytes as one cell, and as r rows for every r up to that total with cells of 0, 1, 2, 5, 9, 16, 37, 100, 255, 1000, 1455, 1456, 1459, 1460 and 4000 bytes (output-side buffering thresholds are approached in many strides); plus a strict lock-step client whose request is 70 KB .. 2*(2^24-1) bytes (exact multiples with their empty closing packet included) under <= 1 (thorough: 2) cuts around every packet header and the last six bytes of the request, and requests whose framed length is 2^k-2..2^k+2 for k = 12..17 (thorough 10..23); two multi-packet requests back to back, pipelined, with a cut around every packet header of the second. Invariant at every read(): the flushed output holds a complete reply (strictly decoded) for every message fully delivered so far. A read while the waiting client holds back its bytes is a hang.".into(),
+        rule: "every list of 3 (thorough: 4) commands of every kind (silent ones among them) inside a TLS session under whole, 7- and 61-byte reads, pipelined and from a lock-step client that sends a command only after it has decrypted every reply owed so far (commands without a reply release the next at once) - the server must never wait on the transport while it owes a reply; command lists over {query->OK, query->resultset, prepare, execute, long data, close, ping, init db, field list} (after a fixed PREPARE; lists of 3 (thorough: 4) also over nine more kinds: a 300-packet reply, chained resultsets, ERR at once and after rows, refused PREPARE / INIT_DB, USE, a SELECT @@ probe, close of an unknown id) x all batchings (lists of 3-4 (thorough: 5) commands fully pipelined also under every single cut, of 3 under every pair of cuts) (the client waits for all owed replies at any subset of message boundaries, from lock-step to fully pipelined; it never sends before the greeting) x cut sets of <= 2 positions; plus all 2^n compositions of small pipelined streams; plus a strict lock-step client receiving replies of every size 0..30000 (200000 in thorough) bytes as one cell, and as r rows for every r up to that total with cells of 0, 1, 2, 5, 9, 16, 37, 100, 255, 1000, 1455, 1456, 1459, 1460 and 4000 bytes (output-side buffering thresholds are approached in many strides); plus a strict lock-step client whose request is 70 KB .. 2*(2^24-1) bytes (exact multiples with their empty closing packet included) under <= 1 (thorough: 2) cuts around every packet header and the last six bytes of the request, and requests whose framed length is 2^k-2..2^k+2 for k = 12..17 (thorough 10..23); two multi-packet requests back to back, pipelined, with a cut around every packet header of the second. Invariant at every read(): the flushed output holds a complete reply (strictly decoded) for every message fully delivered so far. A read while the waiting client holds back its bytes is a hang.".into(),
         assumptions: vec!["bytes written but not flushed are invisible to the simulated client".into()],
         bounds: json!({"max_commands": if quick {4} else {5}, "max_cuts": 2}),
         exhaustive: true,
         caps_hit: vec![],
         families,
-        required: vec!["soak_sessions", "mixed_pipelining", "fully_pipelined", "lock_step", "small_compositions", "reply_sizes", "large_requests_lock_step", "two_large_requests"],
+        required: vec!["tls_walks", "tls_walks_lock_step", "soak_sessions", "mixed_pipelining", "fully_pipelined", "lock_step", "small_compositions", "reply_sizes", "large_requests_lock_step", "two_large_requests"],
     }
 }
